@@ -43,11 +43,7 @@ with open(os.path.join(V, 'seeded', 'README.md'), 'w') as f:
         'C16-28': 'exit 2: the utlru ttl multimap replaced by a sorted list (twin pair XC2)',
         'C11-24': 'exit 2: hinted multimap re-insertion with lower_bound as the hint, tie order among equal counts (twin pair XD2, as C11-22)',
         'C01-33': 'exit 2: fifo split into a used list and a free list, the optional back-pointer a plain iterator (twin pair XD3)',
-        'C19-24': 'exit 2: the promotion runs in the destructor of a scope guard that is also alive on the rejected path - destructors of local objects are not executed by the engine (twin pair YA1)',
-        'C14-31': 'exit 2: the eviction runs in a scope_exit guard whose lambda captured the victim before the ageing pass (twin pair YB2)',
         'C11-25': 'exit 2: node-handle re-insertion with equal_range(k).first as the hint, tie order among equal counts (twin pair YB3, as C11-22)',
-        'C10-23': 'exit 2: a promote-on-exit scope guard that is not dismissed before the expired entry is erased (twin pair YC3)',
-        'C07-54': 'exit 2: a ttl-reaper scope guard declared before the lock guard, so its destructor runs after the unlock (twin pair YD2)',
         'C14-32': 'NOT DECIDED: as C14-20, float versus double product (twin pair ZB1)',
         'C05-28': 'exit 2: the uniform ttl kept as a raw int32 tick count instead of a duration (the int64 twin ends the same way: representation change, twin pair ZD1)',
         'C11-22': 'exit 2: hinted multimap re-insertion with lower_bound as the hint (tie order among equal counts; twin pair SC1)',
